@@ -17,6 +17,7 @@ import AdaptixProofs.Lemmas.MorphSpecUnion
 import AdaptixProofs.Lemmas.MorphSpecTotal
 import AdaptixProofs.Lemmas.MorphSpecDump
 import AdaptixProofs.Lemmas.MorphSpecDumpRel
+import AdaptixProofs.Props.C06
 
 namespace Adaptix.Morph.C02
 
@@ -137,6 +138,95 @@ theorem load_rejects_iff_Rejects (W : World) (strict : Bool) (hN : NoneExact W s
     (∃ e, load W ⟨.disable, strict⟩ n T d = .err e) ↔ Rejects W strict T d :=
   (load_rejects_iff W strict hN n T d hfuel hm hl ho hs).trans
     (specLoad_none_iff_rejects W strict n T d hfuel hm)
+
+/-! ### every debug-trail mode (audit A)
+
+  The theorems above speak about mode DISABLE.  The property quantifies over `debug_trail`
+  too; with the simulation theorems of C06 (`all_ok_determines`, `all_err_determines`,
+  `disable_first_agree`) the documented rule is the rule of EVERY mode: whenever the DISABLE
+  run is settled (a static sufficient condition is `load_settled`), whatever FIRST or ALL
+  return is the prescribed value, and whenever they raise a LoadError the rule prescribes no
+  value.  The fuels of the two runs are independent. -/
+
+/-- what any mode returns, DISABLE returns (given that DISABLE ends in a value or a LoadError) -/
+theorem mode_ok_to_disable (W : World) (strict : Bool) (m : DebugTrail) (n k : Nat) (T : Ty)
+    (d v : Val) (hs : Settled (load W ⟨.disable, strict⟩ n T d))
+    (h : load W ⟨m, strict⟩ k T d = .ok v) : load W ⟨.disable, strict⟩ n T d = .ok v := by
+  have hnd : load W ⟨.disable, strict⟩ n T d ≠ .diverge := by
+    rcases hs with ⟨a, ha⟩ | ⟨e, he⟩ <;> simp [*]
+  have hne : (load W ⟨.disable, strict⟩ n T d).isEscape = false := by
+    rcases hs with ⟨a, ha⟩ | ⟨e, he⟩ <;> simp [*, Outcome.isEscape]
+  cases m with
+  | disable =>
+    rcases Nat.le_total k n with hkn | hnk
+    · rw [C06.load_fuel_mono_le W _ k n T d hkn (by rw [h]; simp), h]
+    · rw [← C06.load_fuel_mono_le W _ n k T d hnk hnd, h]
+  | first =>
+    rcases C06.disable_first_agree W strict n k T d hnd (by rw [h]; simp) hne
+        (by rw [h]; rfl) with ⟨v', h1, h2⟩ | ⟨_, h2⟩
+    · rw [h] at h2; cases h2; exact h1
+    · rw [h] at h2; simp [Outcome.isErr] at h2
+  | all => exact C06.all_ok_determines W strict .disable n k T d v h hnd
+
+/-- when any mode raises a LoadError, DISABLE raises one -/
+theorem mode_err_to_disable (W : World) (strict : Bool) (m : DebugTrail) (n k : Nat) (T : Ty)
+    (d : Val) (e : LErr) (hs : Settled (load W ⟨.disable, strict⟩ n T d))
+    (h : load W ⟨m, strict⟩ k T d = .err e) : ∃ e', load W ⟨.disable, strict⟩ n T d = .err e' := by
+  have hnd : load W ⟨.disable, strict⟩ n T d ≠ .diverge := by
+    rcases hs with ⟨a, ha⟩ | ⟨e, he⟩ <;> simp [*]
+  have hne : (load W ⟨.disable, strict⟩ n T d).isEscape = false := by
+    rcases hs with ⟨a, ha⟩ | ⟨e, he⟩ <;> simp [*, Outcome.isEscape]
+  cases m with
+  | disable =>
+    rcases Nat.le_total k n with hkn | hnk
+    · exact ⟨e, by rw [C06.load_fuel_mono_le W _ k n T d hkn (by rw [h]; simp), h]⟩
+    · exact ⟨e, by rw [← C06.load_fuel_mono_le W _ n k T d hnk hnd, h]⟩
+  | first =>
+    rcases C06.disable_first_agree W strict n k T d hnd (by rw [h]; simp) hne
+        (by rw [h]; rfl) with ⟨v', _, h2⟩ | ⟨h1, _⟩
+    · rw [h] at h2; cases h2
+    · cases hl : load W ⟨.disable, strict⟩ n T d <;> rw [hl] at h1 <;> simp [Outcome.isErr] at h1
+      exact ⟨_, rfl⟩
+  | all =>
+    obtain ⟨e', he', _⟩ := C06.all_err_determines W strict .disable n k T d e h hnd
+    exact ⟨e', he'⟩
+
+/-- **Implementation = documented rule in EVERY debug-trail mode.**  `m` is any of DISABLE /
+    FIRST / ALL; `hs` (the DISABLE run is settled) follows from the static conditions of
+    `load_settled`; `hsm` says the run of mode `m` itself ended in a value or a LoadError. -/
+theorem load_iff_LoadsTo_any_mode (W : World) (strict : Bool) (hN : NoneExact W strict)
+    (m : DebugTrail) (n k : Nat) (T : Ty) (d : Val) (hfuel : depth T ≤ n)
+    (hm : ModelFree T) (hl : LitAtomic T) (ho : OptionalOK W strict T)
+    (hs : Settled (load W ⟨.disable, strict⟩ n T d)) (hsm : Settled (load W ⟨m, strict⟩ k T d)) :
+    (∀ v, load W ⟨m, strict⟩ k T d = .ok v ↔ LoadsTo W strict T d v) ∧
+    ((∃ e, load W ⟨m, strict⟩ k T d = .err e) ↔ Rejects W strict T d) := by
+  have sound : ∀ v, load W ⟨m, strict⟩ k T d = .ok v → LoadsTo W strict T d v := fun v h =>
+    (load_iff_LoadsTo W strict hN n T d hfuel hm hl ho hs v).mp
+      (mode_ok_to_disable W strict m n k T d v hs h)
+  have rej : ∀ e, load W ⟨m, strict⟩ k T d = .err e → Rejects W strict T d := fun e h =>
+    (load_rejects_iff_Rejects W strict hN n T d hfuel hm hl ho hs).mp
+      (mode_err_to_disable W strict m n k T d e hs h)
+  refine ⟨fun v => ⟨sound v, fun hv => ?_⟩, ⟨fun ⟨e, he⟩ => rej e he, fun hr => ?_⟩⟩
+  · rcases hsm with ⟨v', hv'⟩ | ⟨e, he⟩
+    · rw [hv', loadsTo_functional W strict T d _ _ (sound v' hv') hv]
+    · exact absurd ⟨v, hv⟩ ((rejects_iff_not_loads W strict T d hm).mp (rej e he))
+  · rcases hsm with ⟨v', hv'⟩ | ⟨e, he⟩
+    · exact absurd ⟨v', sound v' hv'⟩ ((rejects_iff_not_loads W strict T d hm).mp hr)
+    · exact ⟨e, he⟩
+
+/-- soundness alone needs nothing about the run of mode `m`: whatever it returns is prescribed,
+    whenever it raises a LoadError nothing is prescribed -/
+theorem load_sound_any_mode (W : World) (strict : Bool) (hN : NoneExact W strict)
+    (m : DebugTrail) (n k : Nat) (T : Ty) (d : Val) (hfuel : depth T ≤ n)
+    (hm : ModelFree T) (hl : LitAtomic T) (ho : OptionalOK W strict T)
+    (hleaf : LeavesSettled W strict T) (hh : HashSafe W strict T) :
+    (∀ v, load W ⟨m, strict⟩ k T d = .ok v → LoadsTo W strict T d v) ∧
+    (∀ e, load W ⟨m, strict⟩ k T d = .err e → Rejects W strict T d) := by
+  have hs := load_settled W strict hN n T d hfuel hm hl ho hleaf hh
+  exact ⟨fun v h => (load_iff_LoadsTo W strict hN n T d hfuel hm hl ho hs v).mp
+      (mode_ok_to_disable W strict m n k T d v hs h),
+    fun e h => (load_rejects_iff_Rejects W strict hN n T d hfuel hm hl ho hs).mp
+      (mode_err_to_disable W strict m n k T d e hs h)⟩
 
 /-! ### Union -/
 
@@ -385,6 +475,80 @@ example (d v : Val) :
   have hs := load_settled exW true (exW_noneExact true) 2 listInt d (by decide) hm hl ho hleaf hh
   exact load_iff_LoadsTo exW true (exW_noneExact true) 2 listInt d (by decide) hm hl ho hs v
 
+/-! ### all hypotheses together on a nested type with every constructor (audit A) -/
+
+/-- `tuple[Literal[1, "a"], dict[str, Optional[list[int | str]]], frozenset[int | str]]` -/
+def richT : Ty :=
+  .tuple [ .literal [.int 1, .str "a"],
+           .dict (.scalar "str") (.union [.iter .list true intOrStr, .scalar "none"] ["list", "NoneType"]),
+           .iter .frozenset false intOrStr ]
+
+theorem exW_hashable (strict : Bool) (s : String) (d v : Val)
+    (h : exW.scalarLoad strict s d = .ok v) : v.hashable = true := by
+  simp only [exW] at h
+  split at h <;> (try split at h) <;> simp_all <;> subst_vars <;> rfl
+
+/-- **Witness**: every hypothesis of `load_iff_spec_static` / `load_sound_any_mode` /
+    `load_iff_LoadsTo_any_mode` holds simultaneously for `richT` in BOTH coercion modes
+    (`NoneExact`, fuel, `ModelFree`, `LitAtomic`, `OptionalOK`, `LeavesSettled`, `HashSafe`). -/
+theorem static_hyps_witness (strict : Bool) :
+    NoneExact exW strict ∧ depth richT ≤ 6 ∧ ModelFree richT ∧ LitAtomic richT ∧
+    OptionalOK exW strict richT ∧ LeavesSettled exW strict richT ∧ HashSafe exW strict richT := by
+  refine ⟨exW_noneExact strict, by decide, ?_, ?_, ?_, ?_, ?_⟩
+  · simp [ModelFree, TyAll, TyAllL, richT, intOrStr, NotModel]
+  · simp [LitAtomic, TyAll, TyAllL, richT, intOrStr, LitOK, litAtom]
+  · simp only [OptionalOK, TyAll, TyAllL, richT, intOrStr, OptOK, isNoneCase, and_true, true_and]
+    repeat' apply And.intro
+    all_goals
+      intro a b
+      first
+        | (simp at b; done)
+        | (intro n v h; cases n <;> simp [specLoad, iterAccepts, Val.iterElems] at h)
+  · simp only [LeavesSettled, TyAll, TyAllL, richT, intOrStr, LeafOK, and_true, true_and]
+    repeat' apply And.intro
+    all_goals exact exW_settled strict _
+  · simp only [HashSafe, TyAll, TyAllL, richT, intOrStr, HashOK, and_true, true_and]
+    refine ⟨spec_hashOut_scalar (exW_hashable strict "str"), spec_hashOut_union ?_⟩
+    intro c hc
+    simp only [List.mem_cons, List.not_mem_nil, or_false] at hc
+    rcases hc with rfl | rfl
+    · exact spec_hashOut_scalar (exW_hashable strict "int")
+    · exact spec_hashOut_scalar (exW_hashable strict "str")
+
+/-- … hence on `richT` the loader of the model IS the relation transcribed from the
+    documentation, on EVERY datum, both coercion modes; and what FIRST / ALL return or reject
+    (any fuel) is what the relation says -/
+example (strict : Bool) (d : Val) :
+    (∀ v, load exW ⟨.disable, strict⟩ 6 richT d = .ok v ↔ LoadsTo exW strict richT d v) ∧
+    ((∃ e, load exW ⟨.disable, strict⟩ 6 richT d = .err e) ↔ Rejects exW strict richT d) := by
+  obtain ⟨hN, hf, hm, hl, ho, hleaf, hh⟩ := static_hyps_witness strict
+  have hs := load_settled exW strict hN 6 richT d hf hm hl ho hleaf hh
+  exact ⟨load_iff_LoadsTo exW strict hN 6 richT d hf hm hl ho hs,
+    load_rejects_iff_Rejects exW strict hN 6 richT d hf hm hl ho hs⟩
+
+example (strict : Bool) (m : DebugTrail) (k : Nat) (d : Val) :
+    (∀ v, load exW ⟨m, strict⟩ k richT d = .ok v → LoadsTo exW strict richT d v) ∧
+    (∀ e, load exW ⟨m, strict⟩ k richT d = .err e → Rejects exW strict richT d) := by
+  obtain ⟨hN, hf, hm', hl, ho, hleaf, hh⟩ := static_hyps_witness strict
+  exact load_sound_any_mode exW strict hN m 6 k richT d hf hm' hl ho hleaf hh
+
+/-- components of `richT` evaluated: a dict with two entries (one `None` through the `Optional`
+    shortcut, one tuple loaded as a list through the general union), ALL mode … -/
+example : load exW ⟨.all, true⟩ 5
+    (.dict (.scalar "str") (.union [.iter .list true intOrStr, .scalar "none"] ["list", "NoneType"]))
+    (.dict [(.str "k", .tuple [.int 1, .str "x"]), (.str "n", .none)]) =
+    .ok (.dict [(.str "k", .list [.int 1, .str "x"]), (.str "n", .none)]) := by
+  simp [load, exW, intOrStr, strictExcluded, Val.isMapping, Val.isStr, Val.iterElems, idxItems,
+    seqMode, sweepAll, Sweep.finish, bindO, Val.pyEq, loadDict, dictItems, buildDict, Val.hashable,
+    Val.dictSet, loadUnion, isNoneTy, Val.isNone, loadIter, loadUnion.general, unionAll, Factory.build]
+
+/-- … and a `frozenset[int | str]` from a list with a duplicate, FIRST mode -/
+example : load exW ⟨.first, true⟩ 3 (.iter .frozenset false intOrStr) (.list [.int 2, .str "y", .int 2]) =
+    .ok (.frozenset [.int 2, .str "y"]) := by
+  simp [load, exW, intOrStr, strictExcluded, Val.isMapping, Val.isStr, Val.iterElems, idxItems,
+    seqMode, seqFirst, bindO, Val.pyEq, Val.hashable, loadUnion, isNoneTy, loadIter,
+    loadUnion.general, unionFirstOk, Factory.build, Val.hashableAll, Val.dedup]
+
 /-- `list[int]`, strict: `"12"` and `{"a": 1}` are excluded, `[1, 2]` is accepted -/
 example : load exW ⟨.disable, true⟩ 2 listInt (.str "12") =
     .err (LErr.leaf "ExcludedTypeLoadError" (.str "12")) := rfl
@@ -424,6 +588,26 @@ example : load exW ⟨.disable, true⟩ 2 intOrStr (.list []) = .err LErr.bare :
 example : LoadsTo exW true intOrStr (.str "a") (.str "a") :=
   .union (pre := [.scalar "int"]) (post := [])
     (by intro c hc; simp at hc; subst hc; exact .scalar (by intro v h; cases h)) (.scalar rfl)
+
+/-- the union theorems with their hypotheses discharged (audit A) -/
+example : ∃ c ∈ [Ty.scalar "int", Ty.scalar "str"], load exW ⟨.disable, true⟩ 1 c (.str "a") = .ok (.str "a") :=
+  union_sound exW true (exW_noneExact true) 1 (by decide) _ ["int", "str"] _ _
+    (rfl : load exW ⟨.disable, true⟩ 2 intOrStr (.str "a") = .ok (.str "a"))
+example : (load exW ⟨.disable, true⟩ 2 intOrStr (.str "a")).isOk = true :=
+  union_complete exW true (exW_noneExact true) 1 _ ["int", "str"] (.str "a")
+    (fun c hc => by
+      simp only [List.mem_cons, List.not_mem_nil, or_false] at hc
+      rcases hc with rfl | rfl <;> exact exW_settled true _ _)
+    ⟨.scalar "str", by simp, rfl⟩
+example : ∀ c ∈ [Ty.scalar "int", Ty.scalar "str"], ∃ e, load exW ⟨.disable, true⟩ 1 c (.list []) = .err e :=
+  (union_fails_iff_all_fail exW true (exW_noneExact true) 1 _ ["int", "str"] (.list [])).mp
+    ⟨_, (rfl : load exW ⟨.disable, true⟩ 2 intOrStr (.list []) = .err LErr.bare)⟩
+/-- `dump_union_by_class` with its hypotheses discharged: a `bool` in `int | str` goes to `int` -/
+example : ∃ t, specDispatch exDW ["int", "str"] [.scalar "int", .scalar "str"] (.bool true) = some t ∧
+    dump exW exDW ⟨.disable, true⟩ 1 t (.bool true) = .ok (.bool true) :=
+  (dump_union_by_class exW exDW true 1 _ ["int", "str"] (.bool true) (.bool true)
+    (by simp [ModelFree, TyAll, TyAllL, NotModel]) rfl rfl).mp
+    (rfl : dump exW exDW ⟨.disable, true⟩ 2 intOrStr (.bool true) = .ok (.bool true))
 
 /-- dumping: every iterable becomes a list for list children, a tuple otherwise -/
 example : dump exW exDW ⟨.disable, true⟩ 2 listInt (.tuple [.int 1, .int 2]) = .ok (.list [.int 1, .int 2]) := rfl
